@@ -172,6 +172,7 @@ def _site_setup() -> None:
     from odata_query.django.django_q import AstToDjangoQVisitor
     from odata_query.sqlalchemy.core import AstToSqlAlchemyCoreVisitor
     from odata_query.sqlalchemy.orm import AstToSqlAlchemyOrmVisitor
+    SITE["td"] = _td_visitors()
     SITE["vis"] = [lambda: AstToDjangoQVisitor(dj.Item), lambda: AstToSqlAlchemyOrmVisitor(samodels.Item),
                    lambda: AstToSqlAlchemyCoreVisitor(samodels.Item.__table__)]
 
@@ -205,6 +206,41 @@ def check_callsite_ok(bi: int, fn: int, pat: int) -> bool:
     except exceptions.ArgumentTypeException:
         return False
     return True
+
+
+# ---------------------------------------------------------------- type-directed renderings (SQL text dialects)
+TD_FUNCS = [("length", 0), ("substring", 1), ("substring", 2)]
+
+
+def _td_visitors():
+    from odata_query.sql import AstToAthenaSqlVisitor, AstToSqliteSqlVisitor, AstToSqlVisitor
+    return [AstToSqlVisitor, lambda: AstToSqliteSqlVisitor("t0"), AstToAthenaSqlVisitor]
+
+
+def _td_head(di: int, node: Any) -> str:
+    try:
+        r = gen_pick(SITE["td"], di)().visit(node)
+    except exceptions.ODataException as e:
+        return "EXC " + type(e).__name__
+    return r.split("(")[0] if isinstance(r, str) else "NON-STR"
+
+
+def check_type_directed(di: int, fi: int, ti: int, p0: int, p1: int, p2: int, sval: str) -> bool:
+    """length / substring render differently for strings and for lists (or refuse lists); the variant is chosen from the
+    inferred type of the argument at the call site.  For an argument expression whose type the typed generator knows (String
+    or List) and the library infers (not 'unknown'), the chosen variant is the one the dialect uses for a literal of that
+    type - a call site that asks inference with its own fall-back must not turn a list into a string."""
+    t = gen_pick((S, L), ti)
+    fn, nextra = gen_pick(TD_FUNCS, fi)
+    e = gen_typed(t, 2, [p0, p1, p2], sval)
+    if infer_type(e) is None:
+        return True
+    extra = [ast.Integer("1")] * nextra
+    got = _td_head(di, ast.Call(ast.Identifier(fn), [e] + extra))
+    if got.startswith("EXC "):
+        return True      # a refusal by the library is always acceptable (an inner part may be unsupported in this dialect)
+    want = _td_head(di, ast.Call(ast.Identifier(fn), [lit(t, "s")] + extra))
+    return got == want
 
 
 EXPECTED_SETS = [(S,), (S, L), (I, F), (B,), (D, DT), (DT, T), (L,), (G,), (DU,)]
@@ -256,6 +292,7 @@ def main() -> int:
                   "argument templates": [list(a) for a in ARG_TEMPLATES], "argument leaf kinds": "literal / field / nested call",
                   "nested": "typed expressions of depth <= 3; every inner producer choice is a symbolic int",
                   "string literal contents": "symbolic str, len <= 2"}
+    run.bounds["type-directed rendering"] = "length / substring over typed String / List argument expressions of depth <= 2 (producer choices symbolic) in the 3 SQL text dialects"
     run.outside = ["function names longer than 18 characters", "expressions nested deeper than 3",
                    "ill-typed expressions (nothing is claimed about them)"]
     run.assumptions = ["OData built-in return types transcribed from the 4.01 specification (SPEC table in this module)",
@@ -293,6 +330,19 @@ def main() -> int:
                           family="typecheck-call-sites", isolate=True))
         items.append(Item(f"siteok_{bn}", "fn: int, pat: int", f"0 <= fn < 3 and 0 <= pat < {len(PATTERNS)}",
                           f"check_callsite_ok({bi}, fn, pat)", describe={"backend": bn}, family="typecheck-call-sites", isolate=True))
+    k = 0
+    for fi in range(len(TD_FUNCS)):
+        for ti, t in enumerate((S, L)):
+            for p0 in range(len(producers(t))):      # outermost producer enumerated (one obligation each), inner choices symbolic
+                k += 1
+                for di, dn in enumerate(("sql", "sqlite", "athena")):
+                    if quick and (k + run.seed) % 3 != di:
+                        continue                     # quick: each (function, type, producer) on one dialect, rotating
+                    items.append(Item(f"td_{dn}_{fi}_{t}_{p0}", "p1: int, p2: int",
+                                      "0 <= p1 < 6 and 0 <= p2 < 6",
+                                      f"check_type_directed({di}, {fi}, {ti}, {p0}, p1, p2, 'q')",
+                                      describe={"dialect": dn, "function": list(TD_FUNCS[fi]), "argument type": t,
+                                                "outer producer": str(producers(t)[p0])}, family="type-directed-rendering"))
     for ti, t in enumerate(TYPES):
         for ei in range(len(EXPECTED_SETS)):
             if quick and (ti + ei) % 2:
@@ -309,7 +359,7 @@ def main() -> int:
     for it in items[:4]:
         run.sample({"harness": it.name, "call": it.call, "describe": it.describe})
     header = ("from verif.props.c18 import check_name, check_nested, check_typecheck, check_substr_family, check_nested_pair, "
-              "check_callsite, check_callsite_ok\n")
+              "check_callsite, check_callsite_ok, check_type_directed\n")
     run_items(run, header, items, per_condition_timeout=60 if quick else 200,
               progress=bool(os.environ.get("VERIF_PROGRESS")))
     return run.finish()
